@@ -87,7 +87,7 @@ func (pr *PersistRestorer) ChannelRemoved(ctx context.Context, id channel.ID) er
 	if err != nil {
 		return err
 	}
-	keys := append([]string{"current", "index", "params", "peers", "phase", "staging:state"},
+	keys := append([]string{"current", "index", "params", "parent", "peers", "phase", "staging:state"},
 		sigKeys(len(params.Parts))...)
 
 	for _, key := range keys {
